@@ -12,6 +12,9 @@ import RV.Base.Proto
   N-Triples lines; terms as  i:IRI | b:LABEL | l:LEX:DT|*:LANG|*  (code points):
     ntparse LINE       -> ok S P O | none        the W3C line grammar applied to a line rdflib wrote
     ntrow S P O        -> code points of the line the writer model (`_nt_row`) produces
+  Base relativisation (code points):
+    strip BASE IRI     -> rel | abs      `_strippable_base` (Serializer.relativize: RDF/XML writers)
+    stript BASE IRI    -> rel | abs      `RecursiveSerializer.relativize` (turtle, longturtle, n3)
   Terms of graphs: i<n> (IRI; i0 = rdf:first, i1 = rdf:rest, i2 = rdf:nil), l<n> (literal), b<n> (blank node).
     vl H s p o s p o …       -> true | false | nofuel   `isValidList(H)` on the graph, nothing serialized yet
     pre h1,h2,… s p o …      -> ok | bad                decidable `Pre`: may exactly these blank nodes go unlabelled?
@@ -112,6 +115,10 @@ def step (s : Unit) : List String → Unit × String
           | some t => "plain " ++ showCps t
           | none => match plainChoice k x ps with | some t => "plain " ++ showCps t | none => "quoted")
     | _, _, _ => (s, "bad-op")
+  | ["strip", b, u] => match cps? b, cps? u with
+    | some b, some u => (s, if strippable b u then "rel" else "abs") | _, _ => (s, "bad-op")
+  | ["stript", b, u] => match cps? b, cps? u with
+    | some b, some u => (s, if strippableTurtle b u then "rel" else "abs") | _, _ => (s, "bad-op")
   | ["ntparse", a] => match cps? a with
     | some x => (s, match parseLine x with
         | some (a, b, c) => "ok " ++ showNTerm a ++ " " ++ showNTerm b ++ " " ++ showNTerm c
